@@ -11,4 +11,4 @@ rsync -a --exclude .git /repo/ "$d/"
 ( cd "$d" && patch -p1 -s < "$patch" )
 . "$here/env.sh"
 ( cd "$d" && go build ./cache/... ./proxy/... ./config/... ./utils/... >/dev/null 2>&1 ) || echo "NOTE: mutant does not build"
-VERIF_REPO="$d" "$here/bin/checker" -verif "$d/.verif-out" -repo "$d" -tier "$tier" "$prop" | grep -E "^(==|VIOLATION|KNOWN|  FAIL)" | sed "s#$d/##g"
+VERIF_REPO="$d" "$here/bin/checker" -verif "$here" -out "$d/.verif-out" -repo "$d" -tier "$tier" "$prop" | grep -E "^(==|VIOLATION|KNOWN|  FAIL)" | sed "s#$d/##g"
